@@ -566,8 +566,12 @@ class Packetizer:
             )[: self.__mac_size_in]
             if not util.constant_time_bytes_eq(my_mac, mac):
                 raise SSHException("Mismatched MAC")
+        if len(packet) == 0:
+            raise SSHException("Invalid packet: empty")
         padding = byte_ord(packet[0])
         payload = packet[1 : packet_size - padding]
+        if len(payload) == 0:
+            raise SSHException("Invalid packet: no payload")
 
         if self.__dump_packets:
             self._log(
